@@ -275,6 +275,10 @@ class Run(RunBase):
             [{"op": "regen", "N": ([r for r in self.w["ranges"] if r != self.N] or [self.N])[0]},
              {"op": "regrid", "n": ([g for g in self.w["grids"] if g != self.NGF] or [self.NGF])[0], "adopt": True},
              {"op": "regen", "N": self.N}],
+            # the caller converts, in place, the vectors of the states a query handed out; then re-ranges
+            [{"op": "aux", "what": rng.choice(("interact", "states1", "states2")), "k": k1, "how": rng.choice(("zero", "scale"))},
+             {"op": "regen", "N": ([r for r in self.w["ranges"] if r != self.N] or [self.N])[0]},
+             {"op": "regen", "N": self.N}],
             # to another k-mesh, an evaluation there, and back
             [{"op": "regrid", "n": ([g for g in self.w["grids"] if g != self.NGF] or [self.NGF])[0], "adopt": True},
              call(k1), call(k2), {"op": "regrid", "n": self.NGF, "adopt": True}]))
